@@ -166,3 +166,14 @@ also("C08", "field-based upper-bound fixpoint over refusing comparisons", "Also 
 also("C10", "effects analysis of Signer.PublicKey", "Also decides that reading a key's public half writes nothing in the signer.")
 also("C14", "ESP rule on read failures", "Also decides that a failed workspace read that is not 'not found' fails the attempt.")
 also("C18", "EOF-acceptance rule, whole-input drain rule, affine narrowing check in constructors", "Also decides that a clean end of input is only accepted between records (F22), that whole-input decoders drain their reader, and that constructors bound constant+variable lengths below the field width (F23).")
+
+# rules added after the round-10 seeds and the round-8 refactorings
+also("C03", "dominance rule on the provenance stores (shared with C06.R13)", "Also decides that the provenance the request names is stored into the signed document on every successful path.")
+also("C04", "loop-coverage rule on constant-step scans", "Also decides that a constant-step scan of a page or table does not stop one chunk early.")
+also("C05", "effects analysis with standard-library destination fillers", "Writes through binary.PutUint* / io.ReadFull into package-level storage count as package-level writes.")
+also("C09", "effects analysis with standard-library mutator methods", "Extending a caller's certificate pool (AddCert) counts as a write to it.")
+also("C12", "loop rule on the mutation's certificates", "Also decides that every certificate a mutation carries goes through the upload gate.")
+also("C13", "ESP rule on read failures (shared with C14.R8)", "Also decides that the overwrite gate's existence probe does not take a failed read for an absent file.")
+also("C14", "struct fields as path-state cells", "A workspace kept in a field of an attempt record is followed through the record's methods.")
+also("C16", "history rule on the bytes handed to binary parsers", "Also decides that a supplied quote reaches the binary attestation parsers without a byte-normalising step.")
+also("C19", "who-may-call rule on WriteByte in the scanner", "Also decides that decoded code points are appended as text (WriteRune).")
